@@ -126,11 +126,11 @@ class C01(Prop):
         scheme = ctx.variant or "int"
         rnfa = O.ref_from_case(case, scheme)
         kind = O.case_kind(case)
-        builds = [("enfa", "add"), ("enfa", "ctor"), ("enfa", "ctor_tf")]
+        builds = [("enfa", "add"), ("enfa", "ctor"), ("enfa", "ctor_tf"), ("enfa", "ctor_tf_only"), ("enfa", "ctor_eps")]
         if kind in ("nfa", "dfa"):
             builds.append(("nfa", "add"))
         if kind == "dfa":
-            builds += [("dfa", "add"), ("dfa", "ctor")]
+            builds += [("dfa", "add"), ("dfa", "ctor"), ("dfa", "ctor_tf_only")]
         if kind == "enfa":
             # the epsilon-free classes either refuse the 'epsilon' spelling (documented exception) or -- if they
             # let it through -- the automaton they hold must still answer per the property
